@@ -47,6 +47,20 @@ class Failure(Exception):
   """listed in failure_exceptions"""
 
 
+def shape_callback(fn, j):
+  """output callbacks come as plain functions, callable objects (OutputToJSON is one) and functools.partial objects;
+  the last two have no __name__"""
+  import functools
+  if j % 3 == 1:
+    class CallableObject(object):
+      def __call__(self, record):
+        return fn(record)
+    return CallableObject()
+  if j % 3 == 2:
+    return functools.partial(lambda rec, extra: fn(rec), extra=None)
+  return fn
+
+
 class Ctx(object):
 
   def __init__(self):
@@ -415,7 +429,7 @@ def build_test(case, callbacks=None):
       cb_records.append(record)
       if raises:
         raise RuntimeError('callback failure')
-    test.add_output_callbacks(cb)
+    test.add_output_callbacks(shape_callback(cb, j))
   for cb in callbacks or []:
     test.add_output_callbacks(cb)
   test.configure(failure_exceptions=[Failure], stop_on_first_failure=bool(case.get('sof')),
@@ -772,8 +786,22 @@ def run_history(case):
       running_none.append(st is not None and st.running_phase_state is None)
       if raises:
         raise RuntimeError('callback failure')
-    test.add_output_callbacks(cb)
+    test.add_output_callbacks(shape_callback(cb, j))
   test.configure(failure_exceptions=[Failure], stop_on_first_failure=bool(case.get('sof')), name='verif_case')
+  start = None
+  if case.get('start') is not None:
+    start = build_phase(case['start'], ctx, htf, env['diag_enum'], diagnoses_lib, env.get('plugs'))
+  from openhtf import util as htf_util
+  from openhtf.core import test_state as ts_mod
+  tick = [1000000]
+
+  def ticking_millis():
+    # a clock that moves on between any two readings: 'start <= end' must hold by the ORDER in which the code reads it
+    tick[0] += 1
+    return tick[0]
+  saved_millis = htf_util.time_millis
+  if case.get('ticking'):
+    htf_util.time_millis = ticking_millis
   conf = configuration.CONF
   saved = dict(conf._loaded_values)
   out_runs = []
@@ -792,12 +820,9 @@ def run_history(case):
 
       def _go():
         try:
-          box['ret'] = test.execute()
+          box['ret'] = test.execute(test_start=start) if start is not None else test.execute()
         except BaseException as e:  # pylint: disable=broad-except
           box['exc'] = e
-          if os.environ.get('VERIF_DEBUG'):
-            import traceback
-            open('/tmp/verif_debug.log', 'a').write(traceback.format_exc() + '\n')
       runner = threading.Thread(target=_go, daemon=True)
       runner.start()
       runner.join(HANG_S)
@@ -818,4 +843,5 @@ def run_history(case):
   finally:
     conf._loaded_values.clear()
     conf._loaded_values.update(saved)
+    htf_util.time_millis = saved_millis
   return out_runs
